@@ -10,7 +10,7 @@
 EXTENDS Enc, Ref, GenUtil, TLC, Json
 CONSTANTS Tier, Seed, OutFile
 Thorough == Tier = "thorough"
-V1 == IF Thorough THEN << 0, 1, 2, 3, 4, 5, 7, 8, 11, 16, 17, 59, 61, 127, 128, 254, 255 >> ELSE << 0, 1, 5, 17, 128, 255 >>
+V1 == IF Thorough THEN << 0, 1, 2, 3, 4, 5, 7, 8, 11, 16, 17, 59, 61, 127, 128, 254, 255 >> ELSE << 0, 1, 2, 3, 4, 5, 17, 128, 255 >>
 V2 == IF Thorough THEN << 0, 1, 255, 256, 32767, 32768, 65534, 65535 >> ELSE << 0, 256, 65535 >>
 BS(fn, w, extra, cls) == [op |-> "ByteSweep", fn |-> fn, in |-> w, values |-> V1, values2 |-> V2, step |-> 1, cls |-> cls] @@ extra
 RS(fn, w, extra, cls, k) == [op |-> "RandomSweep", fn |-> fn, in |-> w, count |-> (IF Thorough THEN 4000 ELSE 400), maxlen |-> (IF k % 2 = 0 THEN 64 ELSE 5000), stream |-> k, cls |-> cls] @@ extra
